@@ -960,6 +960,7 @@ var sharedStateAllowed = map[string]string{
 	"builtins.codecs":             "registry of codecs by name, every access under codecsMutex; entries are added by init and by the host's RegisterCodec, never by an evaluation (C09-R1 checks the lock)",
 	"errz.typeErrorsAreFatal":     "host setting, written only by the exported setter that no repository function calls (C09-R1)",
 	"object.convertersInProgress": "the types whose converter is being built, under goTypeMutex; every count is taken back (deferred) by the call that added it, so the table is empty whenever the lock is free (C08-R27 needs it; C09-R1 checks the lock)",
+	"object.registration":         "what was entered into the two tables below while the outermost entry is in progress, under goTypeMutex; emptied when that entry is finished, so that it is empty whenever the lock is free (C05-R14 needs it; C09-R1 checks the lock)",
 	"object.goTypeRegistry":       "memo keyed by reflect.Type under goTypeMutex; an entry depends on its key only, and a type that cannot be completed is unpublished again (C08-R12, C09-R1)",
 	"object.typeConverters":       "memo keyed by reflect.Type under goTypeMutex; an entry depends on its key only (C09-R1)",
 	"os.globalScriptargs":         "host setting, written only by the exported setter that no repository function calls (C09-R1)",
@@ -1003,7 +1004,9 @@ func sharedStateIsEnumerated(c *core.Ctx) {
 			}
 			// a (pointer to a) struct that holds a map or slice and something to lock it with: a
 			// home-made concurrent container, filled through its methods
-			if stt, ok := derefStruct(elem); ok {
+			// (the repository's own types only: what a type of the standard library does inside,
+			// like strings.Replacer building its tables once, is its own business)
+			if stt, ok := derefStruct(elem); ok && ownStruct(elem) {
 				hasTable, hasLock := false, false
 				for i := 0; i < stt.NumFields(); i++ {
 					ft := stt.Field(i).Type()
@@ -3403,4 +3406,16 @@ func containsAtomic(t types.Type, d int) bool {
 		return containsAtomic(u.Elem(), d+1)
 	}
 	return false
+}
+
+// ownStruct: the (pointed-to) type is an unnamed struct or a named type of the repository.
+func ownStruct(t types.Type) bool {
+	if pt, ok := t.(*types.Pointer); ok {
+		t = pt.Elem()
+	}
+	nt, ok := t.(*types.Named)
+	if !ok {
+		return true
+	}
+	return nt.Obj().Pkg() != nil && core.InRepo(nt.Obj().Pkg())
 }
